@@ -238,7 +238,11 @@ func runC13(p *engine.Prog, r *engine.Report) {
 				probs = append(probs, "a return after the request is not covered by the completion")
 			}
 		}
-		r.Check(len(probs) == 0, "R13.2-counter", "completion deferred in "+engine.FuncName(fn), "defer at "+p.Rel(pr.deferIn.Pos()), "the completion is registered before the scrape attempt starts", strings.Join(probs, "; "))
+		// once the completion is registered the target is really contacted: no exit between the defer and RequestTo
+		if !fi.MustPass(pr.deferIn, nil, func(in ssa.Instruction) bool { return in == ssa.Instruction(pr.request) }) {
+			probs = append(probs, "the handler can exit after registering the completion without attempting the request (requests that never reach the target would be counted as scrapes)")
+		}
+		r.Check(len(probs) == 0, "R13.2-counter", "completion deferred in "+engine.FuncName(fn), "defer at "+p.Rel(pr.deferIn.Pos()), "the completion is registered before the scrape attempt starts, and every path from there attempts the request", strings.Join(probs, "; "))
 		cfi := p.Info(pr.completion)
 		var incs []*ssa.Store
 		for _, in := range allInstrs(pr.completion) {
